@@ -175,7 +175,9 @@ def axis_tok(ax, a):
 
 def gen_tarray(rng, nmax, sorted_=True):
     u = rng.choice(UNITS)
-    g = rng.choice([1, 1, 7, 10**3, 10**9, 5 * 10**11, 10**12])
+    # grids up to beyond 2^53 ps (odd multiples: not representable in binary64), so that a regression to
+    # float arithmetic on instants shows up
+    g = rng.choice([1, 1, 7, 10**3, 10**9, 5 * 10**11, 10**12, 2**53 + 1, 10**16 + 1])
     n = rng.choice([1, 2, 2, 3, 3, 4]) if rng.random() < 0.35 else rng.randint(1, nmax)
     spread = max(2, int(n * rng.choice([0.3, 0.6, 1.0, 3.0])))
     base = rng.randint(-spread, spread)
